@@ -200,6 +200,32 @@ pub fn run(ctx: &mut Ctx) {
             check,
         );
     }
+    {
+        // very long patterns whose only non-subset position lies in the last few symbols: block-wise
+        // implementations that drop an incomplete trailing block answer `true`
+        let m = ID.model();
+        let mut lens = vec![65537usize, 70001];
+        if ctx.thorough() {
+            lens.extend([131073, 65536 * 3 + 5, 65535, 65536]);
+        }
+        ctx.forall_lens(
+            "contains_tail_near_miss",
+            &lens,
+            |n| {
+                (gen::codes_n(m, n), vec(0..16u8, n), 0..40usize, 1..16u8, gen::repr(m), gen::repr(m)).prop_map(move |(ca, mask, back, extra, ra, rb)| {
+                    let mut b: Vec<u8> = ca.iter().zip(mask).map(|(x, k)| x & k).collect();
+                    let at = n - 1 - back.min(n - 1);
+                    // make position `at` of b not a subset of a (when a is not the full set)
+                    let outside = !ca[at] & 15;
+                    if outside != 0 {
+                        b[at] = ca[at] | (outside & extra.max(1)) | (outside & outside.wrapping_neg());
+                    }
+                    Case { a: SeqSpec { codes: ca, repr: ra }, b: SeqSpec { codes: b, repr: rb }, c: SeqSpec::plain(vec![]) }
+                })
+            },
+            check,
+        );
+    }
     let cases = ctx.cases(1500, 10);
     ctx.forall("from_dna", cases, gen::seq_spec(CodecId::Dna, 150), check_from_dna);
     // exhaustive: all 256 symbol pairs x all 256 pairs of start offsets (length-1 windows)
